@@ -218,6 +218,11 @@ def ops_menu(kind):
             ops.append(('read', (4 * S, 3 * S), tuple(V), 1, True, -1))
         ops.append(('read', (2 * S, 4 * S), ('gammadown3',), 0, False, -1))
         ops.append(('read', (4 * S,), ('gxx',), 0, True, 0))
+        # the LAST component of a tensor cached alone (the others are then
+        # missing at iterations the last one is not)
+        ops.append(('read', (2 * S,), ('gzz',), 0, True, -1))
+        ops.append(('read', (0,), ('betaz',), 0, True, -1))
+        ops.append(('read', (0, 2 * S), ('betaup3',), 0, True, -1))
         ops.append(('read', (4 * S, 2 * S, 0), ('gammadown3',), 0, True, 0))
     else:   # small
         ops = [('read', (2,), ('gxx',), 0, True, -1),
@@ -228,7 +233,9 @@ def ops_menu(kind):
                ('read', (4,), ('betax',), 0, True, 0),
                ('read', (3, 4), ('gxx',), 1, True, -1),
                ('read', (4, 0, 2, 1, 3), ('gammadown3',), 1, True, -1),
-               ('read', (2, 4), ('gxx', 'alpha'), 0, False, -1)]
+               ('read', (2, 4), ('gxx', 'alpha'), 0, False, -1),
+               ('read', (2,), ('gzz',), 0, True, -1),
+               ('read', (0,), ('betaz',), 0, True, -1)]
         ops = [(o[0], tuple(S * i for i in o[1])) + o[2:] for o in ops]
     return ops
 
